@@ -1,4 +1,5 @@
 import LalModel.Proof.GroupRtmp
+import LalModel.Proof.GopRing
 /-
   Invariant of the HTTP-FLV / WebSocket-FLV subscriber side and of the FLV recording.
 -/
@@ -690,5 +691,172 @@ theorem run_published (cfg : Cfg) (evs : List Ev) :
       obtain ⟨rfl, rfl⟩ := hacc
       cases e <;> simp
   exact this _ _ (init_inv cfg) rfl
+
+/-! ### the caches of reachable states -/
+
+structure CacheOk (g : GopCache.T) (gopNum cap : Nat) : Prop where
+  wf : GopCache.WF g
+  size : g.gopSize = gopNum + 1
+  cap_ : g.cap = cap
+  /-- no cached GOP is longer than the configured cap -/
+  capped : cap = 0 ∨ ∀ gop ∈ GopCache.gops g, gop.length ≤ cap
+
+theorem specFeed_capped (gopNum cap : Nat) (G : List (List Bytes)) (c h k : Bool) (item : Bytes)
+    (hG : cap = 0 ∨ ∀ gop ∈ G, gop.length ≤ cap) :
+    cap = 0 ∨ ∀ gop ∈ GopCache.specFeed gopNum cap G c h k item, gop.length ≤ cap := by
+  rcases hG with h0 | hG
+  · exact Or.inl h0
+  · by_cases hc0 : cap = 0
+    · exact Or.inl hc0
+    · right
+      unfold GopCache.specFeed
+      intro gop hgop
+      split at hgop
+      · split at hgop
+        · cases hgop
+        · exact hG gop hgop
+      · split at hgop
+        · exact hG gop hgop
+        · split at hgop
+          · simp only [List.mem_append, List.mem_singleton] at hgop
+            rcases hgop with h1 | rfl
+            · split at h1
+              · exact hG gop (List.mem_of_mem_tail h1)
+              · exact hG gop h1
+            · simp; omega
+          · split at hgop
+            · exact hG gop hgop
+            · rename_i lastG hl
+              split at hgop
+              · rename_i hlt
+                simp only [List.mem_append, List.mem_singleton] at hgop
+                rcases hgop with h1 | rfl
+                · exact hG gop ((List.dropLast_sublist _).subset h1)
+                · simp; rcases hlt with h2 | h2 <;> omega
+              · exact hG gop hgop
+
+theorem cacheOk_feed (g : GopCache.T) (gopNum cap : Nat) (h : CacheOk g gopNum cap) (typ : Nat) (p item : Bytes) :
+    CacheOk (GopCache.feed g typ p item).1 gopNum cap := by
+  obtain ⟨hw, hs, hc, hg⟩ := GopCache.gops_feed g h.wf typ p item
+  refine ⟨hw, by rw [hs, h.size], by rw [hc, h.cap_], ?_⟩
+  rw [hg, h.cap_]
+  exact specFeed_capped _ _ _ _ _ _ _ h.capped
+
+theorem cacheOk_setMetadata (g : GopCache.T) (n c : Nat) (h : CacheOk g n c) (w wo : Bytes) :
+    CacheOk (GopCache.setMetadata g w wo) n c :=
+  ⟨GopCache.wf_congr (g := g) (g' := GopCache.setMetadata g w wo) rfl rfl rfl rfl h.wf, h.size, h.cap_, by
+    rw [GopCache.gops_congr (g := g) (g' := GopCache.setMetadata g w wo) rfl rfl rfl rfl]; exact h.capped⟩
+
+theorem cacheOk_clear (g : GopCache.T) (n c : Nat) (h : CacheOk g n c) : CacheOk (GopCache.clear g) n c :=
+  ⟨GopCache.wf_clear g h.wf, h.size, h.cap_, by rw [GopCache.gops_clear g h.wf]; right; intro _ hh; cases hh⟩
+
+theorem cacheOk_new (n c : Nat) : CacheOk (GopCache.new n c) n c :=
+  ⟨GopCache.wf_new n c, rfl, rfl, by rw [GopCache.gops_new]; right; intro _ hh; cases hh⟩
+
+theorem writeFlvAll_rtmpGop (sub : Sub) : ∀ (bs : List Bytes) (s : St), (s.writeFlvAll sub bs).rtmpGop = s.rtmpGop := by
+  intro bs
+  induction bs with
+  | nil => intro s; rfl
+  | cons b bs ih => intro s; simp only [St.writeFlvAll, List.foldl_cons]; exact ih (s.writeFlv sub b)
+
+theorem flvLoop_gops (key isHdr : Bool) (tag : Bytes) (s : St) :
+    (flvLoop key isHdr tag s).rtmpGop = s.rtmpGop ∧ (flvLoop key isHdr tag s).flvGop = s.flvGop ∧
+    (flvLoop key isHdr tag s).cfg = s.cfg := by
+  unfold flvLoop
+  generalize s.flvSubs.map (·.id) = ids
+  induction ids generalizing s with
+  | nil => exact ⟨rfl, rfl, rfl⟩
+  | cons i is ih =>
+    simp only [List.foldl_cons]
+    obtain ⟨a, b, c⟩ := ih (flvOne key isHdr tag s i)
+    have : (flvOne key isHdr tag s i).rtmpGop = s.rtmpGop ∧ (flvOne key isHdr tag s i).flvGop = s.flvGop ∧
+        (flvOne key isHdr tag s i).cfg = s.cfg := by
+      unfold flvOne
+      cases s.getFlv i with
+      | none => exact ⟨rfl, rfl, rfl⟩
+      | some x =>
+        exact ⟨writeFlvAll_rtmpGop x _ s, (writeFlvAll_fields x _ s).2.2.1, (frame2_writeFlvAll x _ s).cfg⟩
+    exact ⟨a.trans this.1, b.trans this.2.1, c.trans this.2.2⟩
+
+/-- both caches of every reachable state are well-formed rings holding at most the configured number of
+    GOPs, none longer than the configured cap -/
+theorem run_caches (cfg : Cfg) (evs : List Ev) :
+    CacheOk (run cfg evs).rtmpGop cfg.rtmpGopNum cfg.rtmpCap ∧ CacheOk (run cfg evs).flvGop cfg.flvGopNum cfg.flvCap := by
+  unfold run
+  have : ∀ (s0 : St), Inv s0 →
+      CacheOk s0.rtmpGop cfg.rtmpGopNum cfg.rtmpCap ∧ CacheOk s0.flvGop cfg.flvGopNum cfg.flvCap →
+      CacheOk (evs.foldl step s0).rtmpGop cfg.rtmpGopNum cfg.rtmpCap ∧
+      CacheOk (evs.foldl step s0).flvGop cfg.flvGopNum cfg.flvCap := by
+    induction evs with
+    | nil => intro s0 _ h; exact h
+    | cons e es ih =>
+      intro s0 hI h
+      simp only [List.foldl_cons]
+      apply ih _ (step_inv s0 e hI)
+      cases e with
+      | addPub =>
+        simp only [step]
+        split
+        · exact h
+        · split <;> exact h
+      | delPub =>
+        simp only [step]
+        split
+        · exact h
+        · have hg : (if s0.cfg.mergeSize > 0 then s0.mergeFlush else s0).rtmpGop = s0.rtmpGop ∧
+              (if s0.cfg.mergeSize > 0 then s0.mergeFlush else s0).flvGop = s0.flvGop := by
+            split
+            · exact ⟨(flush_effect s0 hI).1.rtmpGop, (flush_effect s0 hI).1.flvGop⟩
+            · exact ⟨rfl, rfl⟩
+          show CacheOk (GopCache.clear _) _ _ ∧ CacheOk (GopCache.clear _) _ _
+          rw [hg.1, hg.2]
+          exact ⟨cacheOk_clear _ _ _ h.1, cacheOk_clear _ _ _ h.2⟩
+      | msg m =>
+        simp only [step]
+        split
+        · unfold broadcast
+          split
+          · exact h
+          · simp only
+            obtain ⟨h0, f0⟩ := rtmpLoop_inv (Classify.isVideoKeyNalu m.typ m.payload)
+              (if isHeaderMsg m then some (chunksWithoutSdf m) else none) s0 hI
+            obtain ⟨_, _, _, _, fr, ff, _⟩ := forward_frame (rtmpLoop (Classify.isVideoKeyNalu m.typ m.payload)
+              (if isHeaderMsg m then some (chunksWithoutSdf m) else none) s0) m h0
+            obtain ⟨l1, l2, _⟩ := flvLoop_gops (Classify.isVideoKeyNalu m.typ m.payload) (isHeaderMsg m) (tagWithoutSdf m)
+              (forward (rtmpLoop (Classify.isVideoKeyNalu m.typ m.payload) (if isHeaderMsg m then some (chunksWithoutSdf m) else none) s0) m)
+            generalize flvLoop (Classify.isVideoKeyNalu m.typ m.payload) (isHeaderMsg m) (tagWithoutSdf m)
+              (forward (rtmpLoop (Classify.isVideoKeyNalu m.typ m.payload) (if isHeaderMsg m then some (chunksWithoutSdf m) else none) s0) m) = s3 at l1 l2 ⊢
+            have h3 : CacheOk s3.rtmpGop cfg.rtmpGopNum cfg.rtmpCap ∧ CacheOk s3.flvGop cfg.flvGopNum cfg.flvCap := by
+              rw [l1, l2, fr, ff, f0.rtmpGop, f0.flvGop]; exact h
+            have h4 : CacheOk (recordStage s3 m).rtmpGop cfg.rtmpGopNum cfg.rtmpCap ∧
+                CacheOk (recordStage s3 m).flvGop cfg.flvGopNum cfg.flvCap := by
+              unfold recordStage; split <;> exact h3
+            generalize recordStage s3 m = s4 at h4 ⊢
+            have h5 : CacheOk (rtmpCacheStage s4 m).rtmpGop cfg.rtmpGopNum cfg.rtmpCap ∧
+                CacheOk (rtmpCacheStage s4 m).flvGop cfg.flvGopNum cfg.flvCap := by
+              unfold rtmpCacheStage; split
+              · refine ⟨?_, h4.2⟩
+                show CacheOk (if (m.typ == 18) = true then _ else _) _ _
+                split
+                · exact cacheOk_setMetadata _ _ _ (cacheOk_feed _ _ _ h4.1 _ _ _) _ _
+                · exact cacheOk_feed _ _ _ h4.1 _ _ _
+              · exact h4
+            generalize rtmpCacheStage s4 m = s5 at h5 ⊢
+            have h6 : CacheOk (flvCacheStage s5 m).rtmpGop cfg.rtmpGopNum cfg.rtmpCap ∧
+                CacheOk (flvCacheStage s5 m).flvGop cfg.flvGopNum cfg.flvCap := by
+              unfold flvCacheStage; split
+              · refine ⟨h5.1, ?_⟩
+                show CacheOk (if (m.typ == 18) = true then _ else _) _ _
+                split
+                · exact cacheOk_setMetadata _ _ _ (cacheOk_feed _ _ _ h5.2 _ _ _) _ _
+                · exact cacheOk_feed _ _ _ h5.2 _ _ _
+              · exact h5
+            generalize flvCacheStage s5 m = s6 at h6 ⊢
+            unfold statStage; split <;> exact h6
+        · exact h
+      | join k id =>
+        cases k <;> simp only [step] <;> (try split) <;> first | exact h | (simp only [joinFlv]; exact h)
+      | leave k id => cases k <;> exact h
+  exact this _ (init_inv cfg) ⟨cacheOk_new _ _, cacheOk_new _ _⟩
 
 end Lal.Group
